@@ -75,11 +75,18 @@ structure Obj where
   multiple : Bool
   inSeq : Bool            -- some ancestor is a sequence diagram
   isSeq : Bool
+  isGrid : Bool
   constNear : Bool
+  container : Bool
   near : String           -- the near key (a constant such as top-left when `constNear`)
   labelPos : String
   labelH : Int
+  labelW : Int
   hasLabel : Bool
+  preW : Rat              -- width after SetDimensions, before layout
+  seqGroup : Bool         -- `IsSequenceDiagramGroup`
+  seqNote : Bool          -- `IsSequenceDiagramNote`
+  line : Int              -- earliest source line of a (non-glob) reference
 deriving Repr
 
 structure Edge where
@@ -90,6 +97,8 @@ structure Edge where
   lifeline : Bool
   inSeq : Bool
   labelH : Int
+  labelW : Int
+  line : Int
 deriving Repr
 
 /-- `GetModifierElementAdjustments`: (dx, dy) of the 3D / multiple decoration -/
@@ -98,14 +107,17 @@ def modifierOffsets (o : Obj) : Rat × Rat :=
   else if o.multiple then (10, 10)
   else (0, 0)
 
-/-- the rectangles that make up the visual extent of a shape: its box, the box shifted by the 3D/multiple
-    offset (right and up), the outside label (with the ±PADDING the tracer adds left and right), the outside icon -/
+/-- the rectangles that make up the visual extent of a shape: its box, the outside label (with the ±PADDING the
+    tracer adds left and right) and the outside icon — and all of these shifted by the 3D/multiple offset (right
+    and up): `Layout` of dagre moves the whole object by that offset before tracing when the route arrives in the
+    decorated corner, so the label/icon rectangles move with it -/
 def extentRects (o : Obj) : List Box :=
   let (dx, dy) := modifierOffsets o
-  [o.box] ++
-    (if dx ≠ 0 ∨ dy ≠ 0 then [o.box.translate dx (-dy)] else []) ++
+  let base : List Box :=
+    [o.box] ++
     (match o.olabel with | some l => [{ l with x := l.x - 5, w := l.w + 10 }, l] | none => []) ++
     (match o.oicon with | some i => [i] | none => [])
+  if dx ≠ 0 ∨ dy ≠ 0 then base ++ base.map (fun b => b.translate dx (-dy)) else base
 
 /-- shapes whose outline is their bounding box -/
 def rectangularShapes : List String :=
